@@ -2,6 +2,15 @@
 i18nspector's private modules
 '''
 
+import sys
+
 # pylint: disable=multiple-statements
 async def _(): return f'{await "# Python >= 3.7 is required #"}'
 del _
+
+# Numerals in the checked files (plural expressions, nplurals=, widths,
+# precisions and argument numbers of format strings, range flags) can be
+# arbitrarily long; int() must not refuse them (Python >= 3.11 raises
+# ValueError beyond 4300 digits unless told otherwise).
+if hasattr(sys, 'set_int_max_str_digits'):
+    sys.set_int_max_str_digits(0)
